@@ -471,10 +471,17 @@ def random_trace(seed, tid, workdir, props):
     refmol.atoms_positions = pos
     tgt.atoms_positions = tpos
     ev = []
-    if kind in ('tree', 'cyclic') and n >= 4 and rng.random() < 0.15:
+    if kind in ('tree', 'cyclic') and n >= 4 and rng.random() < 0.3:
         # a bond added programmatically after the topology was already used by a map: the new map must see it
         ExchangeMap(refmol, tgt, s)
         free = [(i, j) for i in range(n) for j in range(i) if (j + 1, i + 1) not in bonds]
+        # prefer a bond that changes the frame of one of its ends (the other end becomes one of its two
+        # lowest-numbered neighbours), declared from either end
+        def changes_frame(x, y):
+            return len(nb[x]) >= 2 and y < sorted(nb[x])[1]
+        changing = [(i, j) for (i, j) in free if changes_frame(i, j) or changes_frame(j, i)]
+        if changing and rng.random() < 0.8:
+            free = changing
         i, j = free[int(rng.integers(0, len(free)))]
         bonds2 = list(bonds) + [(j + 1, i + 1)]
         nb2, anchors2, triple2 = _graph_info(n, bonds2)
